@@ -121,6 +121,17 @@ def run(ctx: Ctx):
         f = ctx.func(MOD, q)
         t = ast.unparse(f.node)
         ctx.ob("C20-O1", "R27 WRITE-OWNERSHIP", f, f"{q.split('.')[1]} groups every element by its root", "for i in range(len(self._parent))" in t and "root = self.find(i)" in t, "", node=f.node)
+    from .sat_common import _need
+
+    _need(ctx, "C20-O1", "R30 ACCUMULATOR-PAIRING", ctx.func(MOD, "UnionFind.component_sizes"), "component_sizes counts every element once, under its root, and returns the counts", ["size_map[root] = size_map.get(root, 0) + 1", "return list(size_map.values())"])
+    _need(ctx, "C20-O1", "R30 ACCUMULATOR-PAIRING", ctx.func(MOD, "UnionFind.get_components"), "get_components puts every element into the set of its root (created on first sight) and returns the sets", ["if root not in comp_map:\n            comp_map[root] = set()\n        comp_map[root].add(i)", "return list(comp_map.values())"])
+    ficfg = cfg_of(fi.node)
+    figv = GuardView(ficfg)
+    for d in tree_defs:
+        dn = ficfg.stmt_node_containing(d)
+        at = figv.guard_atoms(dn, stable_only=False)
+        sized = isinstance(d, ast.BinOp)
+        ctx.ob("C20-O1", "R1 STATUS-GUARD", fi, f"`self._tree = {ast.unparse(d)[:30]}` is the {'size' if sized else 'list'} form of the constructor", (("T:isinstance(values, int)" in at) if sized else ("F:isinstance(values, int)" in at)), f"{sorted(at)}", node=d)
     cc = ctx.func(MOD, "UnionFind.component_count")
     ctx.ob("C20-O1", "R27 WRITE-OWNERSHIP", cc, "component_count reports the counter", [ast.unparse(n.value) for n in own_nodes(cc.node) if isinstance(n, ast.Return)] == ["self._count"], "", node=cc.node)
 
